@@ -121,4 +121,12 @@ theorem goToLower_idem (s : Bytes) : goToLower (goToLower s) = goToLower s := by
         unfold goToLower; simp only [ht]; rfl
       rw [e']; exact goMap_case_idem true s
 
+/-- whatever the mapping, `strings.Map` writes well-formed UTF-8 (ill-formed input bytes come out as U+FFFD) -/
+theorem goMap_valid (f : Nat → Nat) (s : Bytes) : ValidUtf8 (goMap f s) := by
+  unfold ValidUtf8
+  rw [goMap_eq f s, decodeUtf8_encodeUtf8 _ (by
+    intro r hr
+    rcases List.mem_map.mp hr with ⟨x, _, rfl⟩
+    exact normR_valid _)]
+
 end Rare.C11.Case
